@@ -76,3 +76,27 @@ CONTRACTS[P + "interval_diff"] = dict(
                    decreases="interval - (j - i)")},
     modifies=[], split=[{"bind": {"progression1": a, "progression2": b}} for a in _NUMS for b in _NUMS],
     properties=["C08"], battery="numeral_pairs_int")
+
+# numeral formatting: prefix of |a| accidentals, then the numeral, then the suffix; an octave of flats folds to sharps
+_A = "(prog_tuple[1] if prog_tuple[1] >= -6 else prog_tuple[1] + 12)"
+CONTRACTS[P + "tuple_to_string"] = dict(
+    params={"prog_tuple": "(str,int,str)"},
+    requires="-12 <= prog_tuple[1] and prog_tuple[1] <= 6",
+    returns="str", modifies=[],
+    ensures=[("length", "len(result) == abs(%s) + len(prog_tuple[0]) + len(prog_tuple[2])" % _A),
+             ("accidental-prefix", "all([result[i] == ('#' if %s > 0 else 'b') for i in range(abs(%s))])" % (_A, _A)),
+             ("then-the-numeral", "result[abs(%s):abs(%s) + len(prog_tuple[0])] == prog_tuple[0]" % (_A, _A)),
+             ("then-the-suffix", "result[abs(%s) + len(prog_tuple[0]):] == prog_tuple[2]" % _A)],
+    loops={1: dict(ghost={"R0": "roman", "A0": "acc"},
+                   inv=[("flats-so-far", "all([roman[i] == 'b' for i in range(acc - A0)])"),
+                        ("rest-is-the-numeral", "roman[acc - A0:] == R0"),
+                        ("length", "len(roman) == len(R0) + (acc - A0)"), ("counter", "A0 <= acc and (A0 < 0 or acc == A0) and (A0 >= 0 or acc <= 0)")],
+                   decreases="-acc"),
+           2: dict(ghost={"R1": "roman", "A1": "acc"},
+                   inv=[("sharps-so-far", "all([roman[i] == '#' for i in range(A1 - acc)])"),
+                        ("rest-is-what-it-was", "roman[A1 - acc:] == R1"),
+                        ("length", "len(roman) == len(R1) + (A1 - acc)"), ("counter", "acc <= A1 and (A1 > 0 or acc == A1) and (A1 <= 0 or acc >= 0)")],
+                   decreases="acc")},
+    notes="domain: the accidental counts the substitution rules can produce from prefixes -3..+3 at depth <= 2 stay "
+          "within -12..6; beyond +6 the folding of the pinned code is itself wrong (outside the property's quantifier)",
+    properties=["C08"], battery="numeral_tuples")
